@@ -66,6 +66,8 @@ class Mode%(i)d:
 
     def on_iteration(self, tm):
         _drv.HOOK(self.MODE_NAME, "on_iteration", tm)
+        # (whatever a mode returns means nothing to the selector)
+        return (False, None, 0, True, "done")[int(tm * 1000) %% 5]
 
     def on_disable(self):
         _drv.HOOK(self.MODE_NAME, "on_disable")
@@ -232,7 +234,7 @@ def random_events(rng):
         if r < 0.15:
             evs.append({"e": "tick", "d": rng.choice([0, 5000, 20000, 20000, 100000])})
         elif r < 0.25:
-            evs.append({"e": "str", "s": rng.choice(["", "m1", "m2", "bogus", "None"])})
+            evs.append({"e": "str", "s": rng.choice(["", "m1", "m2", "bogus", "None", "m1 ", " m2", "M1"])})
         elif r < 0.35:
             evs.append({"e": "choose", "s": rng.choice(["m1", "m2", "None", "bogus"])})
         elif r < 0.5 and (not active or rng.random() < 0.25):
